@@ -35,8 +35,8 @@ def outputs_of(name, sdef):
         return {STATIC_PROP.get(name, 'C03')}
     m = RELABEL.get(name)
     if m is None:
-        return set(sdef.props) | {'C03'}
-    out = set(m.values()) | {'C03'}
+        return set(sdef.props) | {'C03', 'C04'}
+    out = set(m.values()) | {'C03', 'C04'}
     return out
 
 def relabel(name, label):
@@ -194,6 +194,15 @@ def t_part(ctx, prop):
                                           'replay': rp, 'no_failing_input': False, 'grammar': open(os.path.join(T['gen'], n + '.ebnf')).read(),
                                           'what': 'schema %s (%s): expected "%s" from the generator, got: %s' % (n, s.note, s.expect, st['driver'][:400])})
     run = [n for n in mine if SCHEMAS[n].expect == 'ok' and n not in T['excluded'] and T['status'].get(n, {}).get('verdict') == 'harness']
+    if prop == 'C03':
+        # the documented type mapping is decided by rustc on the type assertions of every schema (done in prepare());
+        # enumerating behaviours adds nothing for this property
+        out['compiled_with_type_assertions'] = [n for n in run]
+        out['samples'].append({'schema': 'seq_choice', 'assertions': ['let _: &Vec<A> = &v.a;', 'let _: &Option<B> = &v.b;']})
+        run = [n for n in run if 'C03' in SCHEMAS[n].props and n in ('enum_field', 'boxed', 'box_merge', 'override_simple', 'override_enum')]
+    if prop == 'C04':
+        # every schema is run (a panic of the generated glue is reported under C04), at a small bound
+        cap = min(cap, 3e6)
     results = {}
     with concurrent.futures.ThreadPoolExecutor(max_workers=14) as ex:
         futs = {n: ex.submit(run_schema, T, n, sm.bound_for(SCHEMAS[n], cap)) for n in run}
